@@ -65,7 +65,7 @@ CHECKS = {
         text='Inserted tokens are materialised as zero-length faulty lexemes at the start of the next real lexeme and fed to one LR '
              'step over [laidx, laidx+1) in both search and replay; success criterion (3 trailing shifts or Accept) with a single '
              'constant; the sequence replayed on the real stacks is element 0 of the returned vector; the three copies of the LR '
-             'step (driver, replay, search) agree on lookup key, reduce, shift and accept/error behaviour. The replay of a reported sequence on the real stacks does what the sequence says, per repair kind (Insert: one faulty lexeme over [i,i+1), index kept; Delete: index+1; Shift: the input over [i,i+1), index from the parse).',
+             'step (driver, replay, search) agree on lookup key, reduce, shift and accept/error behaviour. The replay of a reported sequence on the real stacks does what the sequence says, per repair kind (Insert: one faulty lexeme over [i,i+1), index kept; Delete: index+1; Shift: the input over [i,i+1), index from the parse). lr_upto\'s end index is exclusive: every round that looks an action up has established index != end.',
         note='Validity of every reconstructed sequence and equality of the final value with a re-parse are search results over runtime stacks and are NOT decided. Trusted: ' + TB,
         technique='symbolic path tables + sibling agreement between duplicated LR-step implementations in MIR',
         ref='§4 C05'),
@@ -86,7 +86,7 @@ CHECKS = {
              'continue at the returned index); the search\'s cost-bucket list is long enough for any neighbour cost when indexed; budget only shrinks and bounds the deadline; every cycle of every loop in the '
              'recovery cone is deadline-tested, iterator driven, counter bounded or consuming; every give-up exit of recover '
              'returns (unchanged index, no repairs); a Shift repair is recorded only for a move that consumed a lexeme (so the '
-             '"three trailing shifts" of the success test are three real lexemes). The replay of a repair sequence on the real stacks moves exactly as far as the sequence says (shared with C05).',
+             '"three trailing shifts" of the success test are three real lexemes). The replay of a repair sequence on the real stacks moves exactly as far as the sequence says (shared with C05). The replay\'s end index is exclusive (shared with C05).',
         note='Strictly increasing error positions three lexemes apart depend on what the search finds and are NOT decided beyond that. Trusted: ' + TB,
         technique='symbolic path tables of the driver, per-cycle classification of recovery loops (deadline / iterator / counter / consuming) in MIR',
         ref='§4 C07'),
@@ -185,7 +185,7 @@ CHECKS = {
              'to that variant; the same wincode configuration type is selected for writing and reading per '
              'SerialisationFormat variant, for grammar and table alike. Thorough tier: the read side is taken from the MIR of '
              'every generated parser in the repository, and rustc itself witnesses the codec bounds for u8/u16/u32 x both '
-             'configurations and the privacy of the fields (compile_fail doc-tests with compiling twins).',
+             'configurations and the privacy of the fields (compile_fail doc-tests with compiling twins). No field of a serialised type exists only under a #[cfg] that holds in the analysed build (the layout must not depend on the build configuration).',
         note='Proof relative to the trusted base: wincode\'s derive macros and primitive/Box<[T]>/Option/String/tuple codecs, and the '
              'codecs shipped by vob, sparsevec, packedvec. ' + TB,
         technique='codec-closure check over type-checked ADTs/impls (derive provenance from expansion data), derived-writer field coverage in MIR, type-level compile_fail witnesses',
@@ -283,7 +283,7 @@ CHECKS = {
              'and StateTable::new and the checked lexer rule-id conversion are checked for existence and placement. The iteration '
              'order of hash containers keyed by StorageT values (fixed hasher, but width-dependent hashes) must not reach an ordered result. '
              'Every width refusal carries the documented "not big enough" message. No product is computed in the storage type '
-             '(row offsets are formed after widening to usize).',
+             '(row offsets are formed after widening to usize). No count (tokens_len and the like) is incremented in the storage type.',
         note='Necessary condition for "no width yields wrapped sizes/indices"; equality of results across accepted widths is '
              'not decided beyond these two conditions. 2 operand origins are trusted with a stated reason (table in rules/c20.py); 2 known '
              'findings (state numbering and the reduce/reduce conflict list differ between widths). Trusted: ' + TB,
